@@ -386,8 +386,15 @@ def train_classifier(prop):
             return info
         if verb != "GEN":
             return info
+        if "SYNTH" in flags:
+            tags.append("synth=" + flags["SYNTH"])
         if prop == "C14":
-            if flags.get("COMPILES") == "0":
+            if impl != mobs:
+                # decider: the Lean model recomputes the files from the model image by the formulas of the property
+                # (cost_is_truncation, lex_rows, unk_rows_grouped, user_policy, ids_in_dims)
+                info["prop_fail"] = "files-are-not-the-image-of-the-model"
+                info["why"] = "the emitted files differ from the image of the trained model (rows, ids or truncated scaled costs)"
+            elif flags.get("COMPILES") == "0":
                 info["prop_fail"] = "emitted-files-do-not-compile"
                 info["why"] = "the files emitted by write_dictionary are rejected by SystemDictionaryBuilder::from_readers"
             if "USERC" in flags:
@@ -406,7 +413,14 @@ def train_classifier(prop):
         elif prop == "C16":
             k = int(flags.get("K", "0"))
             bad = None
-            for key in ("CLOSE", "CLOSED"):
+            keys = ("CLOSE", "CLOSED")
+            if "SYNTH" in flags:
+                # models with transformed weights: the raw connector is judged by the K+1 rule as long as the
+                # hypothesis `hcut` of bigram_matrix_close (EPSILON*32767 <= largest merged weight) can hold
+                # (kind 3 scales every weight by 1e-13 and leaves it); the dual connector is not judged, because
+                # its pre-summed part may leave 16 bits on such models (the stated caveat of C07)
+                keys = () if flags["SYNTH"] == "3" else ("CLOSE",)
+            for key in keys:
                 v = flags.get(key)
                 if v in (None, "na"):
                     continue
@@ -471,6 +485,13 @@ def extract_streams(kinds, nq, nt):
         extra = ["mecab"] if kinds == ("mecab",) else []
         return [(["extract", str(seed), str(n)] + extra, extract_classifier(kinds))]
     return streams
+
+
+def c18_streams(tier, seed):
+    q = tier == "quick"
+    return [(["extract", str(seed), "1500" if q else "50000"], extract_classifier(("expand", "session", "featset", "featcfg"))),
+            # interning after a reload (next-id counters) and the class tables of real models
+            (["train", "quick", str(seed), "20" if q else "600"], train_classifier("C18"))]
 
 
 TRAINER_TB = ["rucrf 0.3.3 RawModel::merge ported (Model/Trainer.lean); CRF optimisation itself not modelled (theorems quantify over arbitrary raw models)",
@@ -585,7 +606,7 @@ PROPS = {
                      "Vibrato.Props.C18.ids_equal_iff_strings_equal", "Vibrato.Props.C18.history_ids",
                      "Vibrato.Props.C18.id_tuples_eq_iff", "Vibrato.Props.C18.classes_spec",
                      "Vibrato.Props.C18.tuple_listed", "Vibrato.Props.C18.classTable_first_appearance"],
-        "streams": extract_streams(("expand", "session", "featset", "featcfg"), 1500, 50000),
+        "streams": c18_streams,
         "rule": "random template sets (placeholders %F[i] %F?[i] %t %L %R incl. malformed and adjacent forms) x feature rows "
                 "(quoted cells, short rows) through FeatureExtractor (hook), whole extraction sessions with interning, "
                 "feature.def parsing, extract_feature_set with rewriters; non-trivial = a feature string / id list was produced",
